@@ -415,6 +415,52 @@ Proof.
   intros H n Hn [Hf Hk]. eapply conflict_rejected_proof; [|exact H]. exists n; auto.
 Qed.
 
+(* ---------- the validation block works on ALL permutations, the marked gRPC-peer names included ---------- *)
+Lemma base_names_in suites su proto cs c :
+  In (su, proto, cs) suites -> In c cs -> In (base_name su c) (base_names suites).
+Proof.
+  intros Hs Hc. unfold base_names. apply in_flat_map. exists (su, proto, cs). split; [exact Hs|].
+  cbn. apply in_map; exact Hc.
+Qed.
+
+Lemma marked_names_in suites su proto cs c cg sg :
+  In (su, proto, cs) suites -> In c cs -> grpc_supported proto cg sg = true ->
+  In (marked_name cg sg su c) (marked_names cg sg suites).
+Proof.
+  intros Hs Hc Hg. unfold marked_names. apply in_flat_map. exists (su, proto, cs). split; [exact Hs|].
+  cbn. rewrite Hg. apply in_map; exact Hc.
+Qed.
+
+Theorem perm_names_complete_proof suites refc refs su proto cs c :
+  In (su, proto, cs) suites -> In c cs ->
+  In (base_name su c) (perm_names suites refc refs) /\
+  (forall cg sg, (cg = true \/ sg = true) -> (cg = true -> refc = true) -> (sg = true -> refs = true) ->
+     grpc_supported proto cg sg = true ->
+     In (marked_name cg sg su c) (perm_names suites refc refs)).
+Proof.
+  intros Hs Hc. unfold perm_names. split.
+  - apply in_or_app; left. eapply base_names_in; eauto.
+  - intros cg sg Hor Hcg Hsg Hg.
+    pose proof (marked_names_in suites su proto cs c cg sg Hs Hc Hg) as HM.
+    destruct cg, sg.
+    + rewrite (Hcg eq_refl), (Hsg eq_refl). cbn [andb].
+      apply in_or_app; right. apply in_or_app; right. apply in_or_app; right. exact HM.
+    + rewrite (Hcg eq_refl). apply in_or_app; right. apply in_or_app; left. exact HM.
+    + rewrite (Hsg eq_refl). apply in_or_app; right. apply in_or_app; right. apply in_or_app; left. exact HM.
+    + destruct Hor; discriminate.
+Qed.
+
+Theorem conflict_rejected_all_perms_proof failing flaky run skip suites refc refs :
+  (exists n, In n (perm_names suites refc refs) /\ some_glob failing n /\ some_glob flaky n) ->
+  run_checks_perms failing flaky run skip suites refc refs <> None.
+Proof. unfold run_checks_perms. apply conflict_rejected_proof. Qed.
+
+Theorem unmatched_rejected_all_perms_proof failing flaky run skip suites refc refs :
+  (exists p, In p (failing ++ flaky ++ run ++ skip) /\
+             forall n, In n (perm_names suites refc refs) -> ~ globs p n) ->
+  run_checks_perms failing flaky run skip suites refc refs <> None.
+Proof. unfold run_checks_perms. apply unmatched_rejected_proof. Qed.
+
 (* ---------- flag and @file collection ---------- *)
 Theorem collect_all_proof args : args_to_patterns args = concat (map expand_arg args).
 Proof.
@@ -426,11 +472,14 @@ Proof.
   apply (H []).
 Qed.
 
+Lemma trim_space_lin_eq s : trim_space_lin s = trim_space s.
+Proof. unfold trim_space_lin, trim_space, trim_right. rewrite !rev_append_rev, !app_nil_r. reflexivity. Qed.
+
 Theorem file_lines_proof data p :
   In p (parse_pattern_file data) <->
   exists line, In line (split_on 10 data) /\ p = trim_space line /\ p <> [] /\ hd 0 p <> 35.
 Proof.
-  unfold parse_pattern_file. rewrite filter_In, in_map_iff. split.
+  unfold parse_pattern_file. rewrite (map_ext _ _ trim_space_lin_eq). rewrite filter_In, in_map_iff. split.
   - intros [(line & <- & Hl) Hf]. exists line. split; [exact Hl|]. split; [reflexivity|].
     destruct (trim_space line) as [|c r]; [discriminate|]. split; [discriminate|].
     cbn [hd]. rewrite negb_true_iff in Hf. apply N.eqb_neq; exact Hf.
